@@ -279,13 +279,19 @@ def entryOK (a : List (String × J)) : Op → Prop
   | .patchK k dd => dd ≠ [] ∧ ∃ v, lookupKV k a = some v ∧ v.isContainer = true ∧ wf v dd = true
   | _ => False
 
-def TableW (a : List (String × J)) (di : List (String × Op)) : Prop :=
-  SK di ∧ ∀ k e, lookupKV k di = some e → e.skey = k ∧ entryOK a e
+/-- the table a mapping differ builds: sorted, every entry keyed by its own key, applicable to `a`, and on a key
+    of `a` or `b` -/
+def TableW (a b : List (String × J)) (di : List (String × Op)) : Prop :=
+  SK di ∧ ∀ k e, lookupKV k di = some e → e.skey = k ∧ entryOK a e ∧
+    ((lookupKV k a).isSome = true ∨ (lookupKV k b).isSome = true)
 
-theorem TableW.nil (a : List (String × J)) : TableW a [] := ⟨List.Pairwise.nil, fun k e h => by simp [lookupKV] at h⟩
+theorem TableW.nil (a b : List (String × J)) : TableW a b [] :=
+  ⟨List.Pairwise.nil, fun k e h => by simp [lookupKV] at h⟩
 
-theorem mapAppend_W {a : List (String × J)} {di di' : List (String × Op)} {e : Op}
-    (hw : TableW a di) (he : entryOK a e) (h : mapAppend di e = .ok di') : TableW a di' := by
+theorem mapAppend_W {a b : List (String × J)} {di di' : List (String × Op)} {e : Op}
+    (hw : TableW a b di) (he : entryOK a e)
+    (hin : (lookupKV e.skey a).isSome = true ∨ (lookupKV e.skey b).isSome = true)
+    (h : mapAppend di e = .ok di') : TableW a b di' := by
   unfold mapAppend at h
   split at h
   · cases h
@@ -299,11 +305,53 @@ theorem mapAppend_W {a : List (String × J)} {di di' : List (String × Op)} {e :
       by_cases hk : k = e.skey
       · simp only [hk, if_true, Option.some.injEq] at hl
         subst hl
-        exact ⟨hk.symm, he⟩
+        exact ⟨hk.symm, he, by rw [hk]; exact hin⟩
       · simp only [hk, if_false] at hl
         exact hw.2 k e' hl
 
-theorem hasKey_of_isSome {α} {k : String} {l : List (String × α)} (h : (lookupKV k l).isSome = true) : hasKey k l = true := h
+/-- `mapPatch` with a sub-diff that is well-formed for the value under the key -/
+theorem mapPatch_W {a b : List (String × J)} {di di' : List (String × Op)} {k : String} {av : J} {dd : List Op}
+    (hw : TableW a b di) (ha : lookupKV k a = some av)
+    (hdd : dd ≠ [] → av.isContainer = true ∧ wf av dd = true)
+    (h : mapPatch di k dd = .ok di') : TableW a b di' := by
+  unfold mapPatch at h
+  split at h
+  · cases h; exact hw
+  · rename_i hemp
+    have hne : dd ≠ [] := by intro e; subst e; simp at hemp
+    obtain ⟨w1, w2⟩ := hdd hne
+    exact mapAppend_W (e := .patchK k dd) hw
+      (show dd ≠ [] ∧ ∃ v, lookupKV k a = some v ∧ v.isContainer = true ∧ wf v dd = true from ⟨hne, av, ha, w1, w2⟩)
+      (Or.inl (by simp [Op.skey, ha])) h
+
+/-- what the step for a common key must guarantee -/
+def BothStepW (a b : List (String × J)) (F : List (String × Op) → String → Except Err (List (String × Op))) : Prop :=
+  ∀ s x s' av bv, lookupKV x a = some av → lookupKV x b = some bv → TableW a b s → F s x = .ok s' → TableW a b s'
+
+/-- the three folds (removed keys, common keys through `F`, added keys) -/
+theorem threeFold_W (a b : List (String × J)) (rem both add : List String) (hk : KeyClasses a b rem both add)
+    (F : List (String × Op) → String → Except Err (List (String × Op))) (hF : BothStepW a b F)
+    (di1 di2 di3 : List (String × Op))
+    (h1 : rem.foldlM (fun di k => mapAppend di (.remove k)) ([] : List (String × Op)) = .ok di1)
+    (h2 : both.foldlM F di1 = .ok di2)
+    (h3 : add.foldlM (fun di k => mapAppend di (.add k ((lookupKV k b).getD .null))) di2 = .ok di3) :
+    TableW a b di3 := by
+  have w1 : TableW a b di1 :=
+    Merge.foldlM_inv (TableW a b) _ rem [] di1 (fun k hk' x y hx hy =>
+      mapAppend_W (e := .remove k) hx (show hasKey k a = true from (hk.rem_sound k hk').1)
+        (Or.inl (hk.rem_sound k hk').1) hy) (TableW.nil a b) h1
+  have w2 : TableW a b di2 :=
+    Merge.foldlM_inv (TableW a b) _ both di1 di2 (fun k hk' x y hx hy => by
+      obtain ⟨s1, s2⟩ := hk.both_sound k hk'
+      cases ha : lookupKV k a with
+      | none => simp [ha] at s1
+      | some av =>
+        cases hb : lookupKV k b with
+        | none => simp [hb] at s2
+        | some bv => exact hF x k y av bv ha hb hx hy) w1 h2
+  exact Merge.foldlM_inv (TableW a b) _ add di2 di3 (fun k hk' x y hx hy =>
+    mapAppend_W (e := .add k ((lookupKV k b).getD .null)) hx
+      (show hasKey k a = false by simp [hasKey, (hk.add_sound k hk').1]) (Or.inr (hk.add_sound k hk').2) hy) w2 h3
 
 /-- what the recursion must give for the values of common keys -/
 def DictRecW (recur : Recur) (cfg : Cfg) (path : String) (a b : List (String × J)) : Prop :=
@@ -312,9 +360,8 @@ def DictRecW (recur : Recur) (cfg : Cfg) (path : String) (a b : List (String × 
     dd ≠ [] → av.isContainer = true ∧ wf av dd = true
 
 theorem dictBothStep_W (recur : Recur) (cfg : Cfg) (path : String) (a b : List (String × J))
-    (hrec : DictRecW recur cfg path a b) (di di' : List (String × Op)) (k : String) (av bv : J)
-    (ha : lookupKV k a = some av) (hb : lookupKV k b = some bv) (hw : TableW a di)
-    (h : dictBothStep recur cfg path a b di k = .ok di') : TableW a di' := by
+    (hrec : DictRecW recur cfg path a b) : BothStepW a b (dictBothStep recur cfg path a b) := by
+  intro di k di' av bv ha hb hw h
   unfold dictBothStep at h
   simp only [ha, hb, Option.getD_some] at h
   split at h
@@ -322,23 +369,18 @@ theorem dictBothStep_W (recur : Recur) (cfg : Cfg) (path : String) (a b : List (
     split at h
     · cases h
     · rename_i dd hr
-      unfold mapPatch at h
-      split at h
-      · cases h; exact hw
-      · rename_i hemp
-        have hne : dd ≠ [] := by intro e; subst e; simp at hemp
-        obtain ⟨w1, w2⟩ := hrec k av bv dd ha hb hr hne
-        exact mapAppend_W (e := .patchK k dd) hw (show dd ≠ [] ∧ ∃ v, lookupKV k a = some v ∧ v.isContainer = true ∧ wf v dd = true from ⟨hne, av, ha, w1, w2⟩) h
+      exact mapPatch_W hw ha (hrec k av bv dd ha hb hr) h
   · split at h
     · cases h
     · split at h
-      · exact mapAppend_W (e := .replace k bv) hw (show hasKey k a = true by simp [hasKey, ha]) h
+      · exact mapAppend_W (e := .replace k bv) hw (show hasKey k a = true by simp [hasKey, ha])
+          (Or.inl (by simp [Op.skey, ha])) h
       · simp only [pure, Except.pure, Except.ok.injEq] at h
         subst h; exact hw
 
 theorem diffDicts_W (recur : Recur) (cfg : Cfg) (path : String) (a b : List (String × J))
     (hrec : DictRecW recur cfg path a b) (d : List Op) (h : diffDicts recur cfg path a b = .ok d) :
-    ∃ di, d = mapValidated di ∧ TableW a di := by
+    ∃ di, d = mapValidated di ∧ TableW a b di := by
   unfold diffDicts at h
   have hk := listDiffKeys_spec a b
   generalize listDiffKeys a b = t at h hk
@@ -355,22 +397,7 @@ theorem diffDicts_W (recur : Recur) (cfg : Cfg) (path : String) (a b : List (Str
       · rename_i di3 h3
         simp only [Except.ok.injEq] at h
         subst h
-        have w1 : TableW a di1 :=
-          Merge.foldlM_inv (TableW a) _ rem [] di1 (fun k hk' x y hx hy =>
-            mapAppend_W (e := .remove k) hx (show hasKey k a = true from (hk.rem_sound k hk').1) hy) (TableW.nil a) h1
-        have w2 : TableW a di2 :=
-          Merge.foldlM_inv (TableW a) _ both di1 di2 (fun k hk' x y hx hy => by
-            obtain ⟨s1, s2⟩ := hk.both_sound k hk'
-            cases ha : lookupKV k a with
-            | none => simp [ha] at s1
-            | some av =>
-              cases hb : lookupKV k b with
-              | none => simp [hb] at s2
-              | some bv => exact dictBothStep_W recur cfg path a b hrec x y k av bv ha hb hx hy) w1 h2
-        have w3 : TableW a di3 :=
-          Merge.foldlM_inv (TableW a) _ add di2 di3 (fun k hk' x y hx hy =>
-            mapAppend_W (e := .add k ((lookupKV k b).getD .null)) hx (show hasKey k a = false by simp [hasKey, (hk.add_sound k hk').1]) hy) w2 h3
-        exact ⟨di3, rfl, w3⟩
+        exact ⟨di3, rfl, threeFold_W a b rem both add hk _ (dictBothStep_W recur cfg path a b hrec) di1 di2 di3 h1 h2 h3⟩
 
 theorem wfObj_of_table (a : List (String × J)) : ∀ (di : List (String × Op)) (seen : List String),
     DK di → (∀ kv ∈ di, kv.2.skey = kv.1 ∧ entryOK a kv.2) → (∀ kv ∈ di, kv.1 ∉ seen) →
@@ -408,14 +435,20 @@ theorem wfObj_of_table (a : List (String × J)) : ∀ (di : List (String × Op))
       | patchI _ _ => exact absurd he (by simp [entryOK])
       | invalid _ => exact absurd he (by simp [entryOK])
 
+/-- a finished table is a well-formed mapping diff -/
+theorem wfObj_of_tableW {a b : List (String × J)} {di : List (String × Op)} (hw : TableW a b di) :
+    wfObj a (mapValidated di) [] = true := by
+  unfold mapValidated
+  refine wfObj_of_table a di [] hw.1.dk (fun kv hkv => ?_) (fun _ _ => by simp)
+  have := hw.2 kv.1 kv.2 (lookupKV_of_mem kv.1 kv.2 di hw.1.dk hkv)
+  exact ⟨this.1, this.2.1⟩
+
 /-- `diff_dicts` produces a diff that is well-formed for the base object -/
 theorem diffDicts_wf (recur : Recur) (cfg : Cfg) (path : String) (a b : List (String × J))
     (hrec : DictRecW recur cfg path a b) (d : List Op) (h : diffDicts recur cfg path a b = .ok d) :
     wfObj a d [] = true := by
   obtain ⟨di, rfl, hw⟩ := diffDicts_W recur cfg path a b hrec d h
-  unfold mapValidated
-  refine wfObj_of_table a di [] hw.1.dk (fun kv hkv => ?_) (fun _ _ => by simp)
-  exact hw.2 kv.1 kv.2 (lookupKV_of_mem kv.1 kv.2 di hw.1.dk hkv)
+  exact wfObj_of_tableW hw
 
 /-! ### the recursive theorem -/
 
